@@ -214,12 +214,13 @@ func (e *Env) restartAs(kind, what string) {
 		os.Chmod(e.Path, []os.FileMode{0o644, 0o640, 0o664}[e.T.Choice(3)])
 		lax = true
 		e.S.Fault("lax-file-mode")
+		// this one file is the operator's doing; whatever replaces it is a
+		// newly created file again
+		var st syscall.Stat_t
+		syscall.Stat(e.Path, &st)
+		e.laxIno = st.Ino
 	}
-	defer func() {
-		if lax {
-			os.Chmod(e.Path, 0o600)
-		}
-	}()
+	_ = lax
 	before := e.ReadFile()
 	var stB syscall.Stat_t
 	syscall.Stat(e.Path, &stB)
@@ -292,7 +293,19 @@ func (e *Env) step(st *seqState, c *Caller, op model.Op, cor *Corruption, whoFau
 	if e.Prof.DiskFaults && e.diskFaultRun && op.Kind.Mutating() && e.T.Bool(1, 5) {
 		// the disk is full for the duration of this call
 		diskFull = true
-		setFileSizeLimit(48)
+		// how much room is left: none to speak of, or about the size of the
+		// current file (a save then fails part-way through, or - if the new
+		// image is smaller - succeeds)
+		lim := uint64(48)
+		switch cur := len(ctx.PreFile); e.T.Weighted([]int{2, 3, 1}) {
+		case 1:
+			lim = uint64(cur + e.T.Range(1, 48))
+		case 2:
+			if cur > 200 {
+				lim = uint64(cur - e.T.Range(1, 100))
+			}
+		}
+		setFileSizeLimit(lim)
 		e.S.Fault("disk-full-call")
 	}
 	res := e.Exec(c, op)
@@ -325,6 +338,9 @@ func (e *Env) step(st *seqState, c *Caller, op model.Op, cor *Corruption, whoFau
 			jop.Kind = model.OpGet
 		}
 		cor.Class = "well-formed"
+	}
+	if cor != nil && cor.Eff != nil {
+		jop = *cor.Eff
 	}
 	mop := e.ModelOp(jop)
 	rules := c.Rules
@@ -409,6 +425,14 @@ func (e *Env) step(st *seqState, c *Caller, op model.Op, cor *Corruption, whoFau
 					}
 				}
 			}
+		}
+	}
+
+	// ---- C09: "not modified" is only ever said when the active version is V,
+	// whatever else is going wrong ----
+	if mop.Kind == model.OpGetIfChanged && res.Class == model.NotChanged && allowed && (ctx.AuditFail || e.auditLatched) {
+		if act := e.Model.Active(mop.Name); act != mop.Version || mop.Version == 0 {
+			e.fail("result", "%s: answered not-modified for version %d while the active version is %d (the audit log was failing)", desc, mop.Version, act)
 		}
 	}
 
@@ -715,6 +739,12 @@ func encodings(m []byte) [][]byte {
 }
 
 func (e *Env) scanFiles(when string) {
+	if e.laxIno != 0 {
+		var st syscall.Stat_t
+		if syscall.Stat(e.Path, &st) != nil || st.Ino != e.laxIno {
+			e.laxIno = 0 // the operator's file is gone
+		}
+	}
 	ents, _ := os.ReadDir(e.Dir)
 	for _, ent := range ents {
 		p := filepath.Join(e.Dir, ent.Name())
@@ -723,7 +753,9 @@ func (e *Env) scanFiles(when string) {
 			continue
 		}
 		fi, _ := os.Stat(p)
-		if fi != nil && fi.Mode().Perm()&0o077 != 0 {
+		var st syscall.Stat_t
+		syscall.Stat(p, &st)
+		if fi != nil && fi.Mode().Perm()&0o077 != 0 && !(e.laxIno != 0 && st.Ino == e.laxIno) {
 			e.fail("mode", "%s: file %s has mode %v (must be owner-only)", when, ent.Name(), fi.Mode().Perm())
 		}
 		for _, m := range e.markers {
